@@ -1311,14 +1311,14 @@ mod real {
         120
     }
 
-    /// the store-based harnesses under a wall-clock stall: (trace of the run cut into three `run` calls,
+    /// the store-based harnesses under a wall-clock stall: (trace of the run cut into four `run` calls,
     /// trace of the same with real time passing between the calls)
     pub fn stalled_pair(harness: &str, preset: &str, seed: u64, ops: usize) -> Option<(Vec<String>, Vec<String>, u64)> {
         let ms = stall_ms(harness, preset, seed);
         let (mut a, mut b) = (Vec::new(), Vec::new());
         let ok = match harness {
-            "compaction" => compaction_parts(preset, seed, ops, 3, 0, &mut a) && compaction_parts(preset, seed, ops, 3, ms, &mut b),
-            "streaming" => streaming_parts(preset, seed, ops, 3, 0, &mut a) && streaming_parts(preset, seed, ops, 3, ms, &mut b),
+            "compaction" => compaction_parts(preset, seed, ops, 4, 0, &mut a) && compaction_parts(preset, seed, ops, 4, ms, &mut b),
+            "streaming" => streaming_parts(preset, seed, ops, 4, 0, &mut a) && streaming_parts(preset, seed, ops, 4, ms, &mut b),
             _ => false,
         };
         if ok { Some((a, b, ms)) } else { None }
@@ -1444,8 +1444,39 @@ fn harness_trace_inner(harness: &str, preset: &str, seed: u64, ops: usize) -> Op
     if ok { Some(t) } else { None }
 }
 
+/// `rvharness --c20-child stall:<harness> <preset> <seed> <ops>`: the replay of a
+/// `C20:trace-depends-on-wall-clock` finding — both traces side by side from the first difference
+fn stall_replay(harness: &str, preset: &str, seed: u64, ops: usize) {
+    match real::stalled_pair(harness, preset, seed, ops) {
+        None => {
+            eprintln!("no wall-clock stall run for {} {}", harness, preset);
+            std::process::exit(2);
+        }
+        Some((a, b, ms)) => {
+            if a == b {
+                println!("same trace with and without {} ms of real time between the run() calls ({} lines)", ms, a.len());
+            } else {
+                let i = first_diff(&a, &b);
+                println!("traces differ from line {} on (stall {} ms):", i + 1, ms);
+                for k in i..(i + 3).min(a.len().max(b.len())) {
+                    println!("  straight  {}: {}", k + 1, a.get(k).map(|x| x.as_str()).unwrap_or("-"));
+                    println!("  stalled   {}: {}", k + 1, b.get(k).map(|x| x.as_str()).unwrap_or("-"));
+                }
+                std::process::exit(1);
+            }
+        }
+    }
+}
+
 /// `rvharness --c20-child <harness> <preset> <seed> <ops>`: print the trace, `#raw ` / `#pi ` lines last
 pub fn child(args: &[String]) {
+    if args.len() == 4 {
+        if let Some(h) = args[0].strip_prefix("stall:") {
+            std::panic::set_hook(Box::new(|_| {}));
+            stall_replay(h, &args[1], args[2].parse().expect("seed"), args[3].parse().expect("ops"));
+            return;
+        }
+    }
     if args.len() != 4 {
         eprintln!("usage: --c20-child <harness> <preset> <seed> <ops>");
         std::process::exit(2);
@@ -1827,22 +1858,6 @@ fn part_b(a: &Args, out: &mut Out) {
                         &format!("{} {} seed {}: after another built-in harness (DSTSimulation with FaultConfig::disabled()) ran on the same thread the trace differs from a fresh process; first divergence at trace line {}", fam.name, preset, seed, i + 1),
                         json!({"replay": replay, "line": i + 1, "after_other_harness": p3.lines.get(i), "fresh_process": traces[0].lines.get(i)}));
                 }
-                // the WALL CLOCK as a hidden input, varied on purpose: the same run cut into three `run` calls, once
-                // straight and once with real time passing between the calls (longer than the shortest wall-clock
-                // time constant of the configuration) — the simulation is not told, so nothing may change
-                if matches!(fam.name, "streaming" | "compaction") && (seed == fam_seeds[0] || seed == fam_seeds[1]) {
-                    if let Some((straight, stalled, ms)) = catch_unwind(AssertUnwindSafe(|| real::stalled_pair(fam.name, preset, seed, ops))).unwrap_or(None) {
-                        out.count(&format!("wall-clock-stall:{}:{}", fam.name, preset));
-                        if straight != stalled {
-                            let i = first_diff(&straight, &stalled);
-                            all_same = false;
-                            out.violation(&format!("C20:trace-depends-on-wall-clock:{}", fam.name),
-                                &format!("{} {} seed {} ops {}: letting {} ms of REAL time pass between the `run` calls of one simulation changes its trace; first divergence at trace line {}", fam.name, preset, seed, ops, ms, i + 1),
-                                json!({"replay": replay, "how": format!("run({}/3) three times on one harness, std::thread::sleep({} ms) between the calls, compare with the same without the sleeps", ops, ms),
-                                       "stall_ms": ms, "line": i + 1, "straight": straight.get(i), "with_stall": stalled.get(i)}));
-                        }
-                    }
-                }
                 if p1.lines != traces[0].lines && p1.lines == p2.lines {
                     let i = first_diff(&p1.lines, &traces[0].lines);
                     all_same = false;
@@ -1925,6 +1940,30 @@ fn part_b(a: &Args, out: &mut Out) {
                         }
                         let pi = if fam.name == "dst" { format!(" {}", t.pi.iter().map(|x| x.to_string()).collect::<Vec<_>>().join(" ")) } else { String::new() };
                         out.op(format!("RUN {} {} {} {} {}{}", fam.name, preset, seed, ops, cfgn, pi), answer);
+                    }
+                }
+            }
+        }
+        // the WALL CLOCK as a hidden input, varied on purpose (store-based harnesses: their object store stamps
+        // objects with the system time, their compactor reads it): the same run cut into four `run` calls, once
+        // straight and once with REAL time passing between the calls — longer than the shortest wall-clock time
+        // constant of the configuration.  The simulation is not told, so nothing may change.  Every preset (also the
+        // ones the quick tier skips above), three times the family's usual length: a tombstone has to be flushed
+        // before a stall and compacted after it for an age-based decision to show.
+        if matches!(fam.name, "streaming" | "compaction") {
+            for preset in fam.presets {
+                for &seed in &seeds[..2] {
+                    let ops = fam.ops * 3;
+                    if let Some((straight, stalled, ms)) = catch_unwind(AssertUnwindSafe(|| real::stalled_pair(fam.name, preset, seed, ops))).unwrap_or(None) {
+                        out.count(&format!("wall-clock-stall:{}:{}", fam.name, preset));
+                        out.case(&format!("stall {} {} {} {}", fam.name, preset, seed, ops), straight.len() > 3);
+                        if straight != stalled {
+                            let i = first_diff(&straight, &stalled);
+                            out.violation(&format!("C20:trace-depends-on-wall-clock:{}", fam.name),
+                                &format!("{} {} seed {} ops {}: letting {} ms of REAL time pass between the `run` calls of one simulation changes its trace; first divergence at trace line {}", fam.name, preset, seed, ops, ms, i + 1),
+                                json!({"harness": fam.name, "preset": preset, "seed": seed, "ops": ops, "stall_ms": ms, "line": i + 1, "straight": straight.get(i), "with_stall": stalled.get(i),
+                                       "how": format!("rvharness --c20-child stall:{} {} {} {}   (run() four times on one harness, std::thread::sleep({} ms) between the calls, compared with the same without the sleeps)", fam.name, preset, seed, ops, ms)}));
+                        }
                     }
                 }
             }
